@@ -1485,7 +1485,17 @@ class TeX(object):
                 return dimen(sign * dimen(t))
             self.pushToken(t)
             break
-        num = dimen(sign * self.readDecimal() * self.readUnitOfMeasure(units=units))
+        value = sign * self.readDecimal()
+        unit = self.readUnitOfMeasure(units=units)
+        if abs(unit) >= 2e9:
+            # fil, fill, filll: the order is encoded additively (see dimen)
+            order = unit - unit.fill
+            if value < 0:
+                num = dimen(value - order)
+            else:
+                num = dimen(value + order)
+        else:
+            num = dimen(value * unit)
         ParameterCommand.enable()
         return num
 
